@@ -121,6 +121,7 @@ def layer_cases(draw, tier):
         "qs": qs,
         "qrows": [[draw(cgen.angles()) for _ in range(npar)] for _ in uq] if npar else None,
         "as_tuple": draw(st.booleans()), "base": base,
+        "rows_kind": draw(st.sampled_from(["lists", "lists", "tuples", "tuple_of_tuples"])),
     }
 
 
@@ -130,7 +131,15 @@ def o_layer(spec):
 
     nm, n = spec["g"], spec["n"]
     fac = builtin_gate_by_name(nm)
-    L = must(lambda: create_layer_of_gates(n, fac, spec["rows"]), "create_layer_of_gates")
+
+    def shaped(rows):  # a parameter row is any sequence of numbers: lists, tuples, ...
+        kind = spec.get("rows_kind", "lists")
+        if rows is None or kind == "lists":
+            return rows
+        rows = [tuple(r) for r in rows]
+        return tuple(rows) if kind == "tuple_of_tuples" else rows
+
+    L = must(lambda: create_layer_of_gates(n, fac, shaped(spec["rows"])), "create_layer_of_gates")
     require(len(L.operations) == n, lambda: f"layer over {n} qubits holds {len(L.operations)} operations")
     require(L.n_qubits == n, lambda: f"layer over {n} qubits has width {L.n_qubits}")
     seen = sorted(op.qubit_indices for op in L.operations)
@@ -147,7 +156,7 @@ def o_layer(spec):
     uq = sorted(set(spec["qs"]))
     with warnings.catch_warnings():
         warnings.simplefilter("ignore")
-        c1 = must(lambda: apply_gate_to_qubits(c0, qs, fac, spec["qrows"]), "apply_gate_to_qubits")
+        c1 = must(lambda: apply_gate_to_qubits(c0, qs, fac, shaped(spec["qrows"])), "apply_gate_to_qubits")
     require(list(c0.operations) == ops0, "apply_gate_to_qubits modified the circuit it was given")
     require(list(c1.operations[: len(ops0)]) == ops0, "existing operations are not kept in place as a prefix")
     new = list(c1.operations[len(ops0):])
@@ -159,7 +168,7 @@ def o_layer(spec):
     require(c1.n_qubits == max(c0.n_qubits, max(uq) + 1), lambda: f"width after apply is {c1.n_qubits}")
     dup = len(uq) != len(spec["qs"])
     return {"classes": (["duplicate_qubits"] if dup else []) + (["parametric"] if spec["rows"] is not None else ["fixed"])
-            + (["unsorted_collection"] if list(spec["qs"]) != sorted(spec["qs"]) else []), "nontrivial": dup or n >= 2}
+            + (["unsorted_collection"] if list(spec["qs"]) != sorted(spec["qs"]) else []) + (["rows:" + spec.get("rows_kind", "lists")] if spec["rows"] is not None else []), "nontrivial": dup or n >= 2}
 
 
 @st.composite
